@@ -404,21 +404,22 @@ theorem header_accept_requires_known_parent (e : HF.Env) (b : HF.BState) (h : HF
         | (simp_all [HF.inIndex, HF.Res.isErr])
   · simp [h1, HF.Res.isErr] at hok
 
-/-- orphan pool: below the bound nothing is evicted; the pool never holds more than 101 orphans
+/-- orphan pool (bound `e.maxOrphans`, 100 in btcd; a parameter, not pinned): below the bound nothing is
+    evicted; the pool never holds more than bound + 1 orphans
     (one above the nominal bound: when the cached oldest pointer is stale nothing is evicted once).
     `PoolOk` is the invariant (it holds initially and `addOrphan` keeps it; removing orphans keeps
     it trivially). -/
-theorem orphan_pool_bound (b : HF.BState) (n : Nat) :
-    (b.orphans.length < HF.MAX_ORPHANS → (HF.addOrphan b n).orphans = b.orphans ++ [n]) ∧
-    (HF.PoolOk b → HF.PoolOk (HF.addOrphan b n)) ∧ HF.PoolOk {} := by
-  unfold HF.PoolOk HF.addOrphan HF.MAX_ORPHANS
+theorem orphan_pool_bound (e : HF.Env) (b : HF.BState) (n : Nat) (hpos : 0 < e.maxOrphans) :
+    (b.orphans.length < e.maxOrphans → (HF.addOrphan e b n).orphans = b.orphans ++ [n]) ∧
+    (HF.PoolOk e b → HF.PoolOk e (HF.addOrphan e b n)) ∧ HF.PoolOk e {} := by
+  unfold HF.PoolOk HF.addOrphan
   simp only []
-  refine ⟨?_, ?_, by decide⟩
+  refine ⟨?_, ?_, by simp⟩
   · intro h
-    have : ¬ b.orphans.length + 1 > 100 := by omega
+    have : ¬ b.orphans.length + 1 > e.maxOrphans := by omega
     simp [this]
   · rintro ⟨h1, h2⟩
-    by_cases hf : b.orphans.length + 1 > 100
+    by_cases hf : b.orphans.length + 1 > e.maxOrphans
     · simp only [hf, if_true]
       cases ho : b.oldest with
       | some o =>
@@ -431,7 +432,7 @@ theorem orphan_pool_bound (b : HF.BState) (n : Nat) :
         cases hh : b.orphans.head? with
         | none =>
           have : b.orphans = [] := by simpa using hh
-          rw [this] at hf; simp at hf
+          rw [this] at hf; simp at hf; omega
         | some o =>
           have hmem : o ∈ b.orphans := List.mem_of_mem_head? hh
           simp only [List.length_append, List.length_cons, List.length_nil]
